@@ -48,10 +48,11 @@ class Deps:
         mod, node = b
         res = None
         if isinstance(node, ast.FunctionDef):
-            for r in ast.walk(node):
-                if isinstance(r, ast.Return) and r.value is not None and _is_notation_call(r.value):
+            from .c16 import returned_exprs
+            for _st, rv in returned_exprs(node):
+                if _is_notation_call(rv):
                     env = {a.arg: set() for a in node.args.args}
-                    dfn = r.value.args[2] if len(r.value.args) > 2 else _kw(r.value, 'definition')
+                    dfn = rv.args[2] if len(rv.args) > 2 else _kw(rv, 'definition')
                     if isinstance(dfn, ast.Name) and dfn.id not in env:
                         from .c16 import inline_locals
                         dfn = inline_locals(node.body, dfn, set(env))
